@@ -671,6 +671,9 @@ class MindsDBParser(Parser):
             type = p[1].parts[-1]
         else:
             type = p[1]
+        if not isinstance(type, str):
+            # describe t.* x
+            raise ParsingException(f'Wrong object type: {p[1].to_string()}')
         type = type.replace(' ', '_')
         return Describe(value=p[2], type=type)
 
@@ -1479,6 +1482,9 @@ class MindsDBParser(Parser):
             name = p.identifier.parts[-1]
         else:
             name = p.function_name
+        if not isinstance(name, str):
+            # t.*(...)
+            raise ParsingException(f'Wrong function name: {p.identifier.to_string()}')
         return Function(op=name, args=args, namespace=namespace)
 
     @_('INTERVAL string')
